@@ -305,6 +305,11 @@ def _validate_matrix_apf_references(apf):
                                apf=apf, apf_encode=apf_encode,
                            ))
 
+        if apf_encode.inputPackFormat is None and apf_encode.outputPackFormat is None:
+            raise AdmError("matrix audioPackFormat {apf.id} must have an input or output audioPackFormat reference".format(
+                apf=apf_encode,
+            ))
+
         if matrix.type_of(apf_encode) != matrix.Type.ENCODE:
             raise AdmError("audioPackFormat {apf.id} references non-encode type audioPackFormat "
                            "{apf_encode.id} as an encode matrix".format(
